@@ -242,6 +242,7 @@ type Exec struct {
 	Fails      []string
 	Diverged   string
 	HitHorizon bool
+	hostPoints bool // calls into the host by path are scheduling points inside the window
 	Quiescent  bool
 	Parked     []Parked
 	Trace      []Event
